@@ -62,7 +62,8 @@ fn serialize_range_mappings(sm: &SourceMap) -> Option<String> {
     let mut had_rmi = false;
     let mut empty = true;
 
-    let mut idx_of_first_in_line = 0;
+    // index of the next segment `serialize_mappings` writes on the current line
+    let mut num_in_line = 0;
 
     let mut rmi_data = Vec::<u8>::new();
 
@@ -78,14 +79,20 @@ fn serialize_range_mappings(sm: &SourceMap) -> Option<String> {
             buf.push(b';');
             prev_line += 1;
             had_rmi = false;
-            idx_of_first_in_line = idx;
+            num_in_line = 0;
         }
+
+        // `serialize_mappings` does not write exact duplicates of the previous token
+        if num_in_line > 0 && Some(&token) == sm.get_token(idx - 1).as_ref() {
+            continue;
+        }
+
+        let num = num_in_line;
+        num_in_line += 1;
 
         if token.is_range() {
             had_rmi = true;
             empty = false;
-
-            let num = idx - idx_of_first_in_line;
 
             // one bit per token of the line: make room up to this token's index
             if rmi_data.len() <= num / 8 {
